@@ -57,7 +57,7 @@ class C28(Check):
     pid = "C28"
     props_file = "Props/C28.v"
     corr_imports = ["Dev.Serial", "Corr.C28"]
-    technique = "Coq invariant proof over all histories of application writes and handshake timings + differential correspondence with serial.Serial (real pipes, real process-variable descriptors)"
+    technique = "Coq invariant proof over all histories of application writes and handshake timings + differential correspondence with serial.Serial (real pipes, the real EL6002 terminal class of terminals.py with BOTH channels in use in one process image)"
     trusted = ["the EL6002 handshake as modelled in Dev/Serial.v `react` (terminal never toggles receive_request before the previous chunk was acknowledged, "
                "does not hand over data before initialisation completed)", "os.pipe2/os.read semantics for non-blocking pipes"]
     assumptions = ["every cyclic frame comes back (frame loss is C22/C30 territory)", "the application never has more than a pipe buffer of unsent data"]
@@ -86,69 +86,122 @@ class C28(Check):
             out.append(evs)
         return out
 
+    def companion(self, case):
+        """the traffic of the OTHER channel of the same EL6002 while the case runs: derived from the case, so that it replays"""
+        import random
+        import zlib
+        rng = random.Random(zlib.crc32(repr(self.describe(case)).encode()))
+        evs = []
+        for _ in range(3 * len(case) + 6):
+            if rng.random() < 0.3:
+                evs.append(("write", payload(rng, rng.choice([1, 3, 22, 23, 40, 5]))))
+            else:
+                ann = payload(rng, rng.randint(1, 22)) if rng.random() < 0.35 else None
+                evs.append(("cycle", {"init": rng.random() < 0.9, "accept": rng.random() < 0.6, "announce": ann}))
+        return evs, rng.random() < 0.5
+
     def run_impl(self, case):
-        from ebpfcat.ebpfcat import PacketVar
+        """the case runs on one channel of a REAL EL6002 terminal object (terminals.py layout), the companion traffic on the other one,
+        both devices in one (fake) sync group image, updated every cycle like SyncGroup.update_devices does"""
         from ebpfcat.ethercat import SyncManager
         from ebpfcat.serial import Serial
+        from ebpfcat.terminals import EL6002
 
-        class Term:
-            pass
-        term = Term()
-
-        class Channel:
-            transmit_accept = PacketVar(term, SyncManager.IN, 0, 0)
-            receive_request = PacketVar(term, SyncManager.IN, 0, 1)
-            init_accept = PacketVar(term, SyncManager.IN, 0, 2)
-            in_string = PacketVar(term, SyncManager.IN, 1, "23p")
-            transmit_request = PacketVar(term, SyncManager.OUT, 0, 0)
-            receive_accept = PacketVar(term, SyncManager.OUT, 0, 1)
-            init_request = PacketVar(term, SyncManager.OUT, 0, 2)
-            out_string = PacketVar(term, SyncManager.OUT, 1, "23p")
-        dev = Serial(Channel)
-        sg = FakeSG(term, {SyncManager.IN: 2, SyncManager.OUT: 30})
-        dev.sync_group = sg
+        term = EL6002.__new__(EL6002)
+        comp, swap = self.companion(case)
+        IN, OUT = 2, 60
+        sg = FakeSG(term, {SyncManager.IN: IN, SyncManager.OUT: OUT})
+        sg.current_data = bytearray(128)
         data = sg.current_data
-        twin = Twin()
-        trace, accepted, delivered, pipe = [], [], [], b""
-        try:
-            for ev in case:
-                if ev[0] == "write":
-                    os.write(dev.out_write, ev[1])
-                    pipe += ev[1]
-                else:
-                    # inputs of the latest response
-                    data[2] = (1 if twin.tacc else 0) | (2 if twin.rreq else 0) | (4 if twin.iacc else 0) | 0xa0
-                    data[3] = len(twin.str)
-                    data[4:26] = twin.str + bytes(22 - len(twin.str))
-                    dev.update()
-                    try:
-                        got = os.read(dev.in_read, 4096)
-                    except BlockingIOError:
-                        got = b""
-                    if got and got != b"A" or (got == b"A" and getattr(dev, "_seenA", False)):
-                        delivered.append(got)
-                    if got == b"A":
-                        dev._seenA = True
-                    treq, racc, ireq = bool(data[30] & 1), bool(data[30] & 2), bool(data[30] & 4)
-                    ostr = bytes(data[32:32 + data[31]])
-                    acc, ann = twin.react(treq, racc, ireq, ostr, ev[1])
-                    if acc is not None:
-                        accepted.append(acc)
-                # what is still in the out pipe: written minus what the device has taken so far
-                taken = b"".join(accepted) + (dev.current_transmit or b"" if (dev.current_transmit is not None and (bool(data[30] & 1) != twin.tacc)) else b"")
+
+        class Side:
+            def __init__(self, channel, off):
+                self.dev = Serial(channel)
+                self.dev.sync_group = sg
+                self.i, self.o = IN + off, OUT + off
+                self.twin = Twin()
+                self.trace, self.accepted, self.delivered, self.pipe = [], [], [], b""
+
+            def write(self, b):
+                os.write(self.dev.out_write, b)
+                self.pipe += b
+
+            def inputs(self):
+                twin, i = self.twin, self.i
+                data[i] = (1 if twin.tacc else 0) | (2 if twin.rreq else 0) | (4 if twin.iacc else 0) | 0xa0
+                data[i + 1] = len(twin.str)
+                data[i + 2:i + 24] = twin.str + bytes(22 - len(twin.str))
+
+            def update(self):
+                dev = self.dev
+                dev.update()
+                try:
+                    got = os.read(dev.in_read, 4096)
+                except BlockingIOError:
+                    got = b""
+                if got and got != b"A" or (got == b"A" and getattr(dev, "_seenA", False)):
+                    self.delivered.append(got)
+                if got == b"A":
+                    dev._seenA = True
+
+            def bus(self, oracle):
+                # what the terminal sees of this channel once BOTH devices have been updated
+                o = self.o
+                treq, racc, ireq = bool(data[o] & 1), bool(data[o] & 2), bool(data[o] & 4)
+                ostr = bytes(data[o + 2:o + 2 + data[o + 1]])
+                acc, ann = self.twin.react(treq, racc, ireq, ostr, oracle)
+                if acc is not None:
+                    self.accepted.append(acc)
+
+            def record(self):
+                dev, o, twin = self.dev, self.o, self.twin
+                taken = b"".join(self.accepted) + (dev.current_transmit or b"" if (dev.current_transmit is not None and (bool(data[o] & 1) != twin.tacc)) else b"")
                 d = [bool(dev.connected), bool(getattr(dev, "last_transmit_accept", False)), bool(getattr(dev, "last_receive_request", False)),
                      bool(dev.last_receive_accept), bool(dev.last_transmit_request),
                      None if dev.current_transmit is None else bytes(dev.current_transmit),
-                     bool(data[30] & 1), bool(data[30] & 2), bool(data[30] & 4), bytes(data[32:32 + data[31]])]
+                     bool(data[o] & 1), bool(data[o] & 2), bool(data[o] & 4), bytes(data[o + 2:o + 2 + data[o + 1]])]
                 t = [twin.phase, twin.tacc, twin.rreq, twin.iacc, twin.str]
-                trace.append([d, t, pipe[len(taken):], list(accepted), list(delivered)])
-            return trace
+                self.trace.append([d, t, self.pipe[len(taken):], list(self.accepted), list(self.delivered)])
+
+            def close(self):
+                for fd in (self.dev.in_read, self.dev.in_write, self.dev.out_read, self.dev.out_write):
+                    try:
+                        os.close(fd)
+                    except OSError:
+                        pass
+        ch = [(term.channel1, 0), (term.channel2, 24)]
+        if swap:
+            ch.reverse()
+        main, other = Side(*ch[0]), Side(*ch[1])
+        order = sorted([main, other], key=lambda x: x.o)      # the devices are updated in the order of the group
+        k, cevs = 0, []
+        try:
+            for ev in case:
+                if ev[0] == "write":
+                    main.write(ev[1])
+                else:
+                    while k < len(comp) and comp[k][0] == "write":
+                        other.write(comp[k][1])
+                        other.record()
+                        cevs.append(comp[k])
+                        k += 1
+                    oc = comp[k] if k < len(comp) else ("cycle", {"init": True, "accept": True, "announce": None})
+                    k += 1
+                    cevs.append(oc)
+                    main.inputs()
+                    other.inputs()
+                    for x in order:
+                        x.update()
+                    main.bus(ev[1])
+                    other.bus(oc[1])
+                    other.record()
+                main.record()
+            self.others = getattr(self, "others", {})
+            self.others[id(case)] = (cevs, other.trace, "channel1" if swap else "channel2")
+            return main.trace
         finally:
-            for fd in (dev.in_read, dev.in_write, dev.out_read, dev.out_write):
-                try:
-                    os.close(fd)
-                except OSError:
-                    pass
+            main.close()
+            other.close()
 
     def model_term(self, case):
         evs = []
@@ -164,6 +217,16 @@ class C28(Check):
     def holds(self, case, o):
         if isinstance(o, Err):
             return o.what
+        h = self.holds_one(case, o)
+        other = getattr(self, "others", {}).get(id(case))
+        if h is True and other is not None and other[1]:
+            cevs, trace, which = other
+            h = self.holds_one(cevs, trace)
+            if h is not True:
+                return f"on the other channel ({which}) of the same terminal, used at the same time: {h}"
+        return h
+
+    def holds_one(self, case, o):
         written = b"".join(ev[1] for ev in case if ev[0] == "write")
         final = o[-1]
         d, t, pipe, accepted, delivered = final
@@ -222,7 +285,7 @@ class C28(Check):
 
     def rule(self):
         return ("histories of 4-30 events: application writes of 1-40 bytes and cycles whose oracle decides init reaction, transmit accept (slow terminals accept "
-                "with probability 0.3) and announcement of received chunks of 0-22 bytes (binary data, a third with leading / trailing NUL bytes, all NUL or all 0xff); both directions active at once; non-trivial = at least one chunk accepted and one delivered")
+                "with probability 0.3) and announcement of received chunks of 0-22 bytes (binary data, a third with leading / trailing NUL bytes, all NUL or all 0xff); both directions active at once; the case runs on one channel of an EL6002 (either one), derived random traffic on the other channel at the same time, and both channels are checked; non-trivial = at least one chunk accepted and one delivered")
 
     def distribution(self, cases, observed):
         d = {"cycles": 0, "writes": 0, "accepted": 0, "delivered": 0}
